@@ -872,7 +872,78 @@ fn observe(bytes: &[u8]) -> String {
             Err(_) => vec![],
         },
     ));
+    // unimplemented_streams(): type, location, vendor
+    secs.push((
+        2,
+        dump.unimplemented_streams()
+            .map(|u| {
+                vec![
+                    u.stream_type as u32 as i128,
+                    u.location.data_size as i128,
+                    u.location.rva as i128,
+                    vendor_code(u.vendor),
+                ]
+            })
+            .collect(),
+    ));
+    // Mac crash info: every record with its fixed fields and strings, then what the accessors give
+    let mc = dump.get_stream::<MinidumpMacCrashInfo>();
+    secs.push((
+        status(&mc),
+        match &mc {
+            Ok(x) => x
+                .raw
+                .iter()
+                .map(|r| {
+                    let mut it: Item = vec![];
+                    let strings: Vec<&str> = match r {
+                        RawMacCrashInfo::V1(f, _s) => {
+                            it.extend([2, f.stream_type as i128, f.version as i128]);
+                            vec![]
+                        }
+                        RawMacCrashInfo::V4(f, s) => {
+                            it.extend([4, f.stream_type as i128, f.version as i128, f.thread as i128, f.dialog_mode as i128]);
+                            vec![&s.module_path, &s.message, &s.signature_string, &s.backtrace, &s.message2]
+                        }
+                        RawMacCrashInfo::V5(f, s) => {
+                            it.extend([
+                                5,
+                                f.stream_type as i128,
+                                f.version as i128,
+                                f.thread as i128,
+                                f.dialog_mode as i128,
+                                f.abort_cause as i128,
+                            ]);
+                            vec![&s.module_path, &s.message, &s.signature_string, &s.backtrace, &s.message2]
+                        }
+                    };
+                    it.push(strings.len() as i128);
+                    for s in &strings {
+                        bytes_full(s.as_bytes(), &mut it);
+                    }
+                    for a in [r.version(), r.thread(), r.dialog_mode(), r.abort_cause()] {
+                        it.push(a.map(|v| *v as i128).unwrap_or(-1));
+                    }
+                    for a in [r.module_path(), r.message(), r.signature_string(), r.backtrace(), r.message2()] {
+                        it.push(a.map(|v| v.len() as i128).unwrap_or(-1));
+                    }
+                    it
+                })
+                .collect(),
+            Err(_) => vec![],
+        },
+    ));
     fmt_sections(&secs)
+}
+
+fn vendor_code(v: &str) -> i128 {
+    match v {
+        "Official" => 0,
+        "Google Extension" => 1,
+        "Mozilla Extension" => 2,
+        "Unknown Extension" => 3,
+        _ => -777,
+    }
 }
 
 fn misc1(m: &[u32; 6], it: &mut Item) {
